@@ -449,7 +449,7 @@ def main(ctx):
     for b in range(nb):
         jobs.append({"seed": ctx.rng("batch", b).random(), "count": cnt})
     for res in ctx.pmap("vf.checks.c19", "batch", jobs,
-                        timeout=1500 if ctx.quick else 3000):
+                        timeout=3000 if ctx.quick else 6000):
         if res:
             ctx.merge(res)
     if ctx.counters.get("matrices_compared", 0) == 0:
